@@ -168,6 +168,27 @@ def run_case(case):
             viol.append((sig("out-of-range"), f"shift={np.round(shift, 4).tolist()} exceeds max_shifts={M} by {exc.max():.4f} px (shape={shape}, data={case['data']})"))
     if not np.isfinite(score):
         viol.append((sig("score-non-finite"), f"score={score} (M={M}, shape={shape}, data={case['data']})"))
+    if case["data"] in ("noise:0", "force:2:1:0.4") and not viol:
+        # the range handed over as a numpy array of either float type and used for several calls (a refinement loop keeps
+        # one array): same answers as with the tuple, the array stays what it was
+        for dt in (np.float32, np.float64):
+            Marr = np.array(M, dtype=dt)
+            try:
+                outs = [model.align(img, Marr), model.align(img, Marr)]
+                if hasattr(model, "fit"):
+                    outs.append(model.fit(img, Marr)[1])
+            except Exception as e:  # noqa
+                viol.append((sig("array-range-raised"), f"max_shifts as {np.dtype(dt).name} array {M}: {type(e).__name__}: {e}"))
+                break
+            for ci, r2 in enumerate(outs):
+                sh2 = np.asarray(r2.shift, dtype=np.float64)
+                if not np.all(np.isfinite(sh2)) or (np.abs(sh2) - np.asarray(M)).max() > 1e-4 or (ci < 2 and np.abs(sh2 - shift).max() > 1e-5):
+                    viol.append((sig("array-range-differs"), f"max_shifts as {np.dtype(dt).name} array {M}, call #{ci + 1} ({'align' if ci < 2 else 'fit'}): shift {np.round(sh2, 4).tolist()}; with the tuple: {np.round(shift, 4).tolist()}"))
+                    break
+            if not np.array_equal(Marr, np.array(M, dtype=dt)):
+                viol.append((sig("range-argument-modified"), f"the caller's max_shifts array ({np.dtype(dt).name}) {M} became {Marr.tolist()}"))
+            if viol:
+                break
     forced = case["data"].startswith("force")
     return {
         "nontrivial": bool(max(M) > 0 or forced),
